@@ -969,3 +969,235 @@ R.mutant("benign-r5-component-early-return", MAP,
 R.mutant("benign-r4-init-hook-alias", MAP,
          sub("        if instrumenting_mapper._set_polymorphic_identity:\n            instrumenting_mapper._set_polymorphic_identity(state)",
              "        stamp = instrumenting_mapper._set_polymorphic_identity\n        if stamp:\n            stamp(state)"), None)
+
+
+# ---------------------------------------------------------------------- C42-R6 (str2-z2, seed C42_2): attributes the row does not carry
+# A polymorphic row loaded through a query against a superclass is an instance of its most specific class, but the SELECT
+# has only the superclass columns: for every other column attribute of that class the column loader finds no getter and
+# files the attribute under populators["expire"] with flag True ("mark it expired, it is loaded on access").  Two things are
+# necessary for "all of that class's attributes correct": (producer) every column attribute gets SOME populator, (consumer)
+# the loops over populators["expire"] in loading.py mark every flagged attribute expired and, whenever the instance may
+# already carry values (populate_existing / a partial refresh), take the old value out of the instance dict first -- an
+# attribute that is in expired_attributes AND in the dict reads the stale dict value, and _commit_all() drops the mark.
+STRAT = "orm/strategies.py"
+
+
+def _expire_list(S: Sub, e: ast.AST) -> bool:
+    return any(isinstance(a, ast.Subscript) and isinstance(a.slice, ast.Constant) and a.slice.value == "expire" for a in S.ctx_alts(e))
+
+
+def _component(S: Sub, e: ast.AST, i: int) -> bool:
+    """every alternative of `e` is component i of an element of an "expire" populator list"""
+    al = S.ctx_alts(e)
+    def ok(a):
+        if isinstance(a, ast.Subscript) and isinstance(a.slice, ast.Constant) and a.slice.value == i:
+            a = ast.Call(func=ast.Name(id=ITEM, ctx=ast.Load()), args=[a.value, ast.Constant(value=i)], keywords=[])
+        return is_pseudo(a, ITEM) and len(a.args) == 2 and isinstance(a.args[1], ast.Constant) and a.args[1].value == i \
+            and is_pseudo(a.args[0], ELEM) and a.args[0].args and isinstance(a.args[0].args[0], ast.Subscript) \
+            and isinstance(a.args[0].args[0].slice, ast.Constant) and a.args[0].args[0].slice.value == "expire"
+    return bool(al) and all(ok(a) for a in al)
+
+
+def _falsy_param_edges(S: Sub, params, pname: str) -> Set[Tuple[int, str]]:
+    """branch outcomes under which the parameter `pname` is falsy"""
+    out: Set[Tuple[int, str]] = set()
+    if pname not in params:
+        return out
+    for n in S.g.nodes:
+        if n.kind != "test" or not hasattr(n.stmt, "test"):
+            continue
+        for lab in ("true", "false"):
+            for t, pol in conj(n.stmt.test, lab == "true"):
+                if not pol and any(_name(a, pname) for a in S.alts(t, n.id)):
+                    out.add((n.id, lab))
+    return out
+
+
+def _not_requested_edges(S: Sub, params) -> Set[Tuple[int, str]]:
+    """branch outcomes that say "this attribute is not among those being loaded" (`key in to_load` false), for a container
+    other than a parameter that holds the instance dict"""
+    out: Set[Tuple[int, str]] = set()
+    for n in S.g.nodes:
+        if n.kind != "test" or not hasattr(n.stmt, "test"):
+            continue
+        for lab in ("true", "false"):
+            for t, pol in conj(n.stmt.test, lab == "true"):
+                if not pol and isinstance(t, ast.Compare) and len(t.ops) == 1 and isinstance(t.ops[0], ast.In) and _component(S, t.left, 0):
+                    out.add((n.id, lab))
+    return out
+
+
+def _expire_consumers(ctx):
+    """[(normal form, Sub, [For loops over <x>["expire"]])] of the functions of orm/loading.py that consume the expire
+    populators; a helper that is called from another consumer is judged where it is inlined"""
+    from ._helpers_rob_i import nf
+    mod = ctx.index.module(LOAD)
+    cands = []
+    for fi in mod.functions.values():
+        if fi.cls is not None or fi.parent_func is not None:
+            continue
+        if '"expire"' not in ast.unparse(fi.node).replace("'", '"'):
+            f0 = nf(ctx, fi, alias=None)
+            if '"expire"' not in ast.unparse(f0.node).replace("'", '"'):
+                continue
+        else:
+            f0 = nf(ctx, fi, alias=None)
+        S = get_sub(ctx, f0)
+        loops = [n for n in walk_local(f0.node) if isinstance(n, ast.For) and _expire_list(S, n.iter)]
+        if loops:
+            cands.append((fi, f0, S, loops))
+    names = {fi.name for fi, _, _, _ in cands}
+    out = []
+    for fi, f0, S, loops in cands:
+        called_by_other = any(isinstance(c.func, ast.Name) and c.func.id == fi.name
+                              for fj, _, _, _ in cands if fj is not fi for c in calls_in(fj.node))
+        if not called_by_other:
+            out.append((f0, S, loops))
+    return out
+
+
+@R.rule("C42-R6", floor=8, template="T-SIBLING/T-PATH",
+        desc="column attributes of the row's class that the SELECT does not carry: the column loader files them under the "
+             "expire populators; every loop over populators[\"expire\"] in orm/loading.py marks each flagged attribute expired and, "
+             "where the instance can already hold values (populate_existing, partial refresh), removes the old value from the "
+             "instance dict for EVERY entry, flagged or not")
+def r6(ctx):
+    cons = _expire_consumers(ctx)
+    n_loops = sum(len(l_) for _, _, l_ in cons)
+    ctx.check(len(cons) >= 2 and n_loops >= 2, f"{LOAD}:expire-populators:consumers",
+              f"expected the full and the partial population path to consume populators[\"expire\"], found {len(cons)} function(s) / {n_loops} loop(s)",
+              f"{len(cons)} function(s), {n_loops} loop(s)", None)
+    for f, S, loops in cons:
+        g = S.g
+        params = list(f.params)
+        refreshes_only_on_request = "populate_existing" in params
+        cut_req = _not_requested_edges(S, params)
+        cut_pe = _falsy_param_edges(S, params, "populate_existing")
+        cut_new = _falsy_param_edges(S, params, "isnew")
+        heads_all: List[int] = []
+        bad_mark: List[str] = []
+        bad_pop: List[str] = []
+        where = None
+        for lp in loops:
+            heads = [n.id for n in g.nodes if n.kind == "for" and n.stmt is lp]
+            ctx.require(heads, f"{f.key}: loop over the expire populators has no CFG node")
+            heads_all += heads
+            where = where or lp
+            ctx.require(isinstance(lp.target, (ast.Tuple, ast.List)) and len(lp.target.elts) == 2 or isinstance(lp.target, ast.Name),
+                        f"{f.key}: element of the expire populators is not (key, flag)")
+            adds, pops = [], []
+            for st in lp.body:
+                for c in ast.walk(st):
+                    if isinstance(c, ast.Call) and isinstance(c.func, ast.Attribute) and c.args:
+                        if c.func.attr == "add" and any(top_attr(a) == "expired_attributes" for a in S.ctx_alts(c.func.value)) \
+                                and _component(S, c.args[0], 0):
+                            adds.append(S.node_of(c))
+                        if c.func.attr == "pop" and all(isinstance(a, ast.Name) and a.id in params for a in S.ctx_alts(c.func.value)) \
+                                and _component(S, c.args[0], 0):
+                            pops.append(S.node_of(c))
+                    if isinstance(c, ast.Delete):
+                        for t in c.targets:
+                            if isinstance(t, ast.Subscript) and all(isinstance(a, ast.Name) and a.id in params for a in S.ctx_alts(t.value)) \
+                                    and _component(S, t.slice, 0):
+                                pops += g.nodes_for(c)
+            adds = [a for a in adds if a is not None]
+            pops = [p for p in pops if p is not None]
+            body = [b for b, lab in g.succ[heads[0]] if lab == "true"]
+            # (a) flagged entries are marked expired, every iteration
+            cut_flag: Set[Tuple[int, str]] = set()
+            for n in g.nodes:
+                if n.kind == "test" and hasattr(n.stmt, "test"):
+                    for lab in ("true", "false"):
+                        for t, pol in conj(n.stmt.test, lab == "true"):
+                            if not pol and not isinstance(t, ast.Compare) and _component(S, t, 1):
+                                cut_flag.add((n.id, lab))
+            cut = cut_flag | cut_req
+            starts = [b for b in body if b not in adds]
+            w = g.witness(starts, heads + [g.exit], avoid=adds, edge_ok=lambda a, b, lab: lab != "exc" and (a, lab) not in cut) if starts else None
+            if not adds or w is not None:
+                bad_mark.append(f"line {getattr(orig(lp), 'lineno', '?')}: an entry flagged `True` can pass without `<state>.expired_attributes.add(<key>)`")
+            # (b) refresh context: the old value leaves the dict, flagged or not
+            hg = S.guards(heads[0])
+            only_without = refreshes_only_on_request and any((not pol) and any(_name(a, "populate_existing") for a in S.alts(t, S.node_of(t)) or [t])
+                                                             for t, pol in hg if S.node_of(t) is not None or isinstance(t, ast.Name))
+            if not only_without:
+                cut = cut_pe | cut_req
+                starts = [b for b in body if b not in pops]
+                w = g.witness(starts, heads + [g.exit], avoid=pops, edge_ok=lambda a, b, lab: lab != "exc" and (a, lab) not in cut) if starts else None
+                if not pops or w is not None:
+                    tests = [unparse(g.nodes[i].stmt.test)[:40] for i in (w or []) if g.nodes[i].kind == "test" and hasattr(g.nodes[i].stmt, "test")]
+                    bad_pop.append(f"line {getattr(orig(lp), 'lineno', '?')}: an entry can pass without `<dict>.pop(<key>)`"
+                                   + (f" (decided by `{tests[-1]}`)" if tests else "") +
+                                   (" although populate_existing is in effect" if refreshes_only_on_request else " although the attribute is being refreshed"))
+        ctx.check(not bad_mark, f"{f.key}:expire-populators:flagged-entries-marked-expired", "; ".join(bad_mark) +
+                  " -- session.query(Person) over an Engineer row: Engineer-only columns are neither in the dict nor expired and read as None",
+                  f"{len(loops)} loop(s): every flagged entry reaches expired_attributes.add(key)", loc(f, where))
+        ctx.check(not bad_pop, f"{f.key}:expire-populators:old-value-removed-when-refreshing", "; ".join(bad_pop) +
+                  " -- Engineer objects already in the Session, rows changed, query(Person).populate_existing(): base columns are refreshed, "
+                  "Engineer-only attributes keep their stale values (the expired mark is ignored while the key is in the dict and dropped by _commit_all)",
+                  "every entry's key is popped from the instance dict before it is marked", loc(f, where))
+        cut = cut_new | cut_pe
+        w = g.witness([g.entry], [g.exit], avoid=heads_all, edge_ok=lambda a, b, lab: lab != "exc" and (a, lab) not in cut)
+        ctx.check(w is None, f"{f.key}:expire-populators:consumed-for-first-seen-row",
+                  "a row seen for the first time" + (" with populate_existing" if refreshes_only_on_request else "") +
+                  " can be populated without going through the expire populators", "reached whenever isnew", loc(f), g.describe_path(w) if w else None)
+    # ---- producer: the plain column loader leaves no attribute without populator
+    fp = ctx.func(f"{STRAT}::_ColumnLoader.create_row_processor")
+    SP = get_sub(ctx, fp)
+    gp = SP.g
+    apps, bad = [], []
+    for c in calls_in(fp.node):
+        if not (isinstance(c.func, ast.Attribute) and c.func.attr == "append" and c.args):
+            continue
+        kinds = {a.slice.value for a in SP.ctx_alts(c.func.value) if isinstance(a, ast.Subscript) and isinstance(a.slice, ast.Constant)
+                 and all(isinstance(x, ast.Name) and x.id in fp.params for x in [a.value])}
+        if not kinds:
+            continue
+        for a in SP.ctx_alts(c.args[0]):
+            if not (isinstance(a, ast.Tuple) and len(a.elts) == 2 and is_attr_of(a.elts[0], "key", "self")):
+                bad.append(f"`{unparse(a)[:50]}` is not filed under the property's own key")
+            elif "expire" in kinds and not (isinstance(a.elts[1], ast.Constant) and a.elts[1].value is True):
+                bad.append(f"a column that is not in the row is filed as `{unparse(a)[:50]}`: not marked expired, reads as None")
+        if kinds & {"quick", "expire"}:
+            apps.append(SP.node_of(c))
+    apps = [a for a in apps if a is not None]
+    if not apps:
+        bad.append("no populator is registered")
+    else:
+        w = gp.must_pass([gp.entry], [gp.exit], apps, edge_ok=no_exc)
+        if w is not None:
+            bad.append("a path registers no populator for the attribute: a column missing from the row (subclass column in a superclass "
+                       "query) is neither loaded nor expired")
+    ctx.check(not bad, f"{fp.key}:every-column-attribute-gets-a-populator", "; ".join(sorted(set(bad))),
+              "quick getter when the column is in the row, else (key, True) under expire", loc(fp))
+
+
+_R6_FULL = ("        if populate_existing:\n            for key, set_callable in populators[\"expire\"]:\n                dict_.pop(key, None)\n                if set_callable:\n"
+            "                    state.expired_attributes.add(key)\n        else:\n            for key, set_callable in populators[\"expire\"]:\n                if set_callable:\n"
+            "                    state.expired_attributes.add(key)\n")
+R.mutant("r6-old-value-popped-only-for-unflagged", LOAD,
+         sub(_R6_FULL, "        for key, set_callable in populators[\"expire\"]:\n            if set_callable:\n                state.expired_attributes.add(key)\n"
+                       "            elif populate_existing:\n                dict_.pop(key, None)\n"), "C42-R6")
+R.mutant("r6-populate-existing-never-pops", LOAD,
+         sub(_R6_FULL, "        for key, set_callable in populators[\"expire\"]:\n            if set_callable:\n                state.expired_attributes.add(key)\n"), "C42-R6")
+R.mutant("r6-partial-refresh-keeps-flagged-value", LOAD,
+         sub("            if key in to_load:\n                dict_.pop(key, None)\n                if set_callable:\n                    state.expired_attributes.add(key)\n",
+             "            if key in to_load:\n                if set_callable:\n                    state.expired_attributes.add(key)\n                else:\n                    dict_.pop(key, None)\n"), "C42-R6")
+R.mutant("r6-flagged-entries-not-marked-without-populate-existing", LOAD,
+         sub("        else:\n            for key, set_callable in populators[\"expire\"]:\n                if set_callable:\n                    state.expired_attributes.add(key)\n",
+             "        else:\n            for key, set_callable in populators[\"expire\"]:\n                if not set_callable:\n                    state.expired_attributes.add(key)\n"), "C42-R6")
+R.mutant("r6-expire-populators-skipped-with-populate-existing", LOAD,
+         sub(_R6_FULL, "        if not populate_existing:\n            for key, set_callable in populators[\"expire\"]:\n                if set_callable:\n                    state.expired_attributes.add(key)\n"), "C42-R6")
+R.mutant("r6-missing-column-gets-no-populator", STRAT,
+         sub("        else:\n            populators[\"expire\"].append((self.key, True))\n\n\n@log.class_logger", "        else:\n            pass\n\n\n@log.class_logger"), "C42-R6")
+R.mutant("r6-missing-column-not-flagged", STRAT,
+         sub("        else:\n            populators[\"expire\"].append((self.key, True))\n\n\n@log.class_logger", "        else:\n            populators[\"expire\"].append((self.key, False))\n\n\n@log.class_logger"), "C42-R6")
+R.mutant("benign-r6-one-loop-pop-inside", LOAD,
+         sub(_R6_FULL, "        for key, set_callable in populators[\"expire\"]:\n            if populate_existing:\n                dict_.pop(key, None)\n            if set_callable:\n                state.expired_attributes.add(key)\n"), None)
+R.mutant("benign-r6-inverted-branch-and-locals", LOAD,
+         sub(_R6_FULL, "        to_expire = populators[\"expire\"]\n        if not populate_existing:\n            for attrname, mark in to_expire:\n                if mark:\n                    state.expired_attributes.add(attrname)\n"
+                       "        else:\n            for attrname, mark in to_expire:\n                dict_.pop(attrname, None)\n                if not mark:\n                    continue\n                state.expired_attributes.add(attrname)\n"), None)
+R.mutant("benign-r6-extracted-helper", LOAD,
+         chain(sub(_R6_FULL, "        _expire_unloaded(state, dict_, populators[\"expire\"], populate_existing)\n"),
+               sub("def _populate_partial(\n", "def _expire_unloaded(state, dict_, entries, refresh):\n    for key, set_callable in entries:\n        if refresh:\n            dict_.pop(key, None)\n"
+                                                "        if set_callable:\n            state.expired_attributes.add(key)\n\n\ndef _populate_partial(\n")), None)
